@@ -22,14 +22,24 @@ import (
 // first listed setting that is valid, references foo, lives in ns and selects node0 — and the
 // template's when there is none.
 func ZZ_C18_ersSide() {
-	c, ds, rsNew, _ := zzStore(1)
-	ds.Status.ActiveReplicaSet = rsNew.Name
-	c.Nodes[0].Labels = map[string]string{"pool": "a"}
-	rsNew.Spec.Template.Spec.Containers[0].Resources = corev1.ResourceRequirements{Requests: corev1.ResourceList{corev1.ResourceCPU: resource.MustParse("100m")}}
 	n := 2
 	if nondet.Thorough() {
 		n = 3
 	}
+	zzErsSide("C18.ers", n)
+}
+
+// ZZ_C10_settingResolved: the same sync seen from C10: "container resources resolved as ... else the
+// valid ExtendedDaemonsetSetting selecting the node, else the template" — which setting that is
+// is decided by the replica-set controller's node list, for every population of two settings
+// (status, reference, namespace, selector) in either listing order.
+func ZZ_C10_settingResolved() { zzErsSide("C10.resolved", 2) }
+
+func zzErsSide(prop string, n int) {
+	c, ds, rsNew, _ := zzStore(1)
+	ds.Status.ActiveReplicaSet = rsNew.Name
+	c.Nodes[0].Labels = map[string]string{"pool": "a"}
+	rsNew.Spec.Template.Spec.Containers[0].Resources = corev1.ResourceRequirements{Requests: corev1.ResourceList{corev1.ResourceCPU: resource.MustParse("100m")}}
 	wantCPU, wantSetting := int64(100), ""
 	for i := 0; i < n; i++ {
 		l := "s" + strconv.Itoa(i)
@@ -82,23 +92,23 @@ func ZZ_C18_ersSide() {
 		}
 	}
 	_, err := zzReconcile(zzReconciler(c, false), zzNS, rsNew.Name)
-	nondet.Assert("C18.ers.noerror", err == nil)
+	nondet.Assert(prop+".noerror", err == nil)
 	var created *corev1.Pod
 	for _, e := range c.Log {
 		if e.Kind == "Pod" && e.Verb == "create" {
 			created = e.Obj.(*corev1.Pod)
 		}
 		if e.Kind == "ExtendedDaemonsetSetting" {
-			nondet.Assert("C18.ers.settings-read-only", e.Verb == "list" || e.Verb == "get")
+			nondet.Assert(prop+".settings-read-only", e.Verb == "list" || e.Verb == "get")
 		}
 	}
-	nondet.Assert("C18.ers.pod-created", created != nil)
+	nondet.Assert(prop+".pod-created", created != nil)
 	if created == nil {
 		return
 	}
 	q := created.Spec.Containers[0].Resources.Requests[corev1.ResourceCPU]
-	nondet.Assert("C18.ers.resources-from-the-one-applicable-setting", q.MilliValue() == wantCPU)
+	nondet.Assert(prop+".resources-from-the-one-applicable-setting", q.MilliValue() == wantCPU)
 	nondet.Observe("cpu", q.MilliValue())
-	nondet.Reach("C18.ers.second-setting-applies", wantSetting == "s1")
-	nondet.Reach("C18.ers.template-applies", wantSetting == "" && len(c.Settings) == 2)
+	nondet.Reach(prop+".second-setting-applies", wantSetting == "s1")
+	nondet.Reach(prop+".template-applies", wantSetting == "" && len(c.Settings) == 2)
 }
